@@ -80,6 +80,7 @@ def install(E):
         co['done'] = True
     def do_go(fr, i):
         if E.go_mode == 'ignore' and E.P.g.get('cur_thread') is None: return None
+        if E.go_mode == 'ignore-all': return None        # stated per harness: background goroutines take no part
         c = i['call']; args = [E.val(fr, a) for a in c['args']]
         if 'invoke' in c:
             recv = E.val(fr, c['recv']); tgt = E.invoke_target(recv, c['invoke'], c['iface'])
